@@ -162,4 +162,42 @@ def step_insolvent(ob):
 
 step_insolvent.kind = "step_insolvent"
 
-TABLE = {f.kind: f for f in (step_insolvent, null_action_in_space, make_trades_raises, transact_nlv_delta, holdings_values_liquidation, accrued_interest_query)}
+def marking_to_market_post(ob):
+    """C05: after marking-to-market the posted margin is requirement x multiplier x |position| x liquidation price, equity unchanged"""
+    from .runtime import Monitor
+    m = model_floats(ob["model"])
+    q0 = m.get("q0", 0.0)
+    if m.get("skolem_is_cash") or (q0 >= 0 and m.get("bid_nan")) or (q0 <= 0 and m.get("ask_nan")):
+        return {"reproduced": False, "reason": "model is about the cash key / a missing liquidation-side quote: no constructor"}
+    b, c = broker_from_model(m)
+    b._holdings_margins[c] = m.get("margin0", 0.0)
+    v0 = S.ConcreteBrokerView(b, S.ConcreteBrokerView.snap(b))
+    nlv0 = sum(S.eq_term(v0, k) for k in v0.keys())
+    mon = Monitor()
+    mon.install()
+    extra = []
+    w = {}
+    try:
+        if nlv0 > 0:
+            w = b.holdings_weights()                # a valuation on the injected (possibly unmarked) state
+            v1 = S.ConcreteBrokerView(b)
+            if v0.qty(c) != 0:
+                want = v0.qty(c) * S.liq(v0, c, v0.qty(c)) * c.multiplier / nlv0
+                if not S.eq(float(w.get(c, 0.0)), want):
+                    extra.append(("Broker.holdings_weights::ratio", {"reported": float(w.get(c, 0.0)), "expected": want}))
+            if c.margin_requirement != 0 and v0.has_last(c) and not S.eq(v1.margin(c), S.target(v0, c)):
+                extra.append(("valuation::margin_at_target", {"margin_after_valuation": v1.margin(c), "target": S.target(v0, c)}))
+        b.marking_to_market()
+        b.net_liquidation_value(False)
+    except Exception as ex:
+        mon.flag("raised", {"error": "%s: %s" % (type(ex).__name__, ex)})
+    finally:
+        mon.uninstall()
+    viol = mon.viol + extra
+    return {"reproduced": bool(viol), "construction": "state injection (A12); the contracts' clauses evaluated concretely at every call",
+            "violated_clauses": viol[:4], "pre": {k: m.get(k) for k in ("q0", "bid", "ask", "mult", "mr", "cr", "margin0", "has_last", "last0")}}
+
+
+marking_to_market_post.kind = "marking_to_market_post"
+
+TABLE = {f.kind: f for f in (marking_to_market_post, step_insolvent, null_action_in_space, make_trades_raises, transact_nlv_delta, holdings_values_liquidation, accrued_interest_query)}
